@@ -667,6 +667,8 @@ func genSkeleton() string {
 	b.WriteString("def fieldWrites : List (String × String × String × String) := [\n  " + strings.Join(genFieldWrites(), ",\n  ") + "\n]\n")
 	b.WriteString("\n/-- every function of fstxn/commit.go with the kinds of its statements in source order (as `shrinkerSpawn`) -/\n")
 	b.WriteString("def abortPaths : List (String × List String) := [\n  " + strings.Join(genAbortPaths(), ",\n  ") + "\n]\n")
+	b.WriteString("\n/-- every function of package nfs that locks inodes by number (`lockInodes`): (function, number of such calls, number of\n    re-validations after the first of them: `.Gen` comparisons and calls of `validateRename`); `validateRename` itself with\n    the number of `.Gen` comparisons it makes -/\n")
+	b.WriteString("def relockUses : List (String × Nat × Nat) := [\n  " + strings.Join(genRelockUses(), ",\n  ") + "\n]\n")
 	b.WriteString("\nend GoNfsd.Gen.Skeleton\n")
 	return b.String()
 }
